@@ -47,7 +47,7 @@ def evaluate(pid, ctx):
         for i in _run(ctx, func):
             if names is not None and i.rule not in names and not i.rule.startswith('analysis'):
                 continue
-            if keys is not None and not any(k in i.key for k in keys) and not i.key.startswith('analysis:'):
+            if keys is not None and not any((i.key.startswith(k[1:]) if k.startswith('^') else k in i.key) for k in keys) and not i.key.startswith('analysis:'):
                 continue
             if i.ident() in seen:
                 continue
@@ -113,7 +113,7 @@ prop('C03', COMMON +
       'Pending implies in the schedule and a thread asked (TOK-pending)', 'dormant handshake and fetch loop (ORD-C03-dormant, ORD-C10-fetch, TRY)', 'no job dropped or run twice (QD-*, TOK-requeue)', 'blocked sync callers stay registered until they leave and are told on every reschedule (QD-waiters)', 'wakers resume parked queues (PARK-wake)'],
      ['that a woken pool thread is eventually scheduled by the OS', 'quiescence of a whole program'],
      [(RP.tok_leak, None), (RP.pa_rules, {'PA-stuck', 'PA'}), (RP.tok_resched, None), (RP.tok_pending, None), (RP.tok_requeue, None), (RQ.qd_queue, None), (RQ.qd_schedule, None), (RQ.qd_once, None),
-      (RL.try_rule, None), (RO.c03_dormant, None), (RO.c10_fetch, None), (RP.park_wake, None), (RQ.qd_wake_blocked, None), (RP.tr_roles, None), (RP.tr_dead, None), (RQ.qd_run, None), (RO.c10_thread, None), (RO.rs_strength, None, ['SchedulerCore']), (RU.ua_leak, None), (RE.eo, None, ['SchedulerCore::', 'JobQueue::', 'Scheduler::schedule_job_desync', 'WakeQueue', 'WakeThread', 'SchedulerThread::', 'FutureJob::', 'floor', 'baseline']), (RP.tr_base, None), (RE.eo, None, ['JobQueue::', 'Scheduler::schedule_job_desync'])])
+      (RL.try_rule, None), (RO.c03_dormant, None), (RO.c10_fetch, None), (RP.park_wake, None), (RQ.qd_wake_blocked, None), (RP.tr_roles, None), (RP.tr_dead, None), (RQ.qd_run, None), (RO.c10_thread, None), (RO.rs_strength, None, ['SchedulerCore']), (RU.ua_leak, None), (RE.eo, None, ['^SchedulerCore::', '^<SchedulerCore::', '^JobQueue::', '^<JobQueue::', '^Scheduler::schedule_job_desync', '^<Scheduler::schedule_job_desync', '^WakeQueue', '^<WakeQueue', '^WakeThread', '^<WakeThread', '^SchedulerThread::', '^<SchedulerThread::', '^FutureJob::', '^<FutureJob::', 'floor', 'baseline']), (RP.tr_base, None), (RE.eo, None, ['^JobQueue::', '^<JobQueue::', '^Scheduler::schedule_job_desync', '^<Scheduler::schedule_job_desync'])])
 
 prop('C04', COMMON +
      'Decided: the sync strategy is chosen in one critical section and waits only when somebody owns or will wake the queue (TR-defer); the condition-variable handshake of the blocked caller (CV1, CV2); '
@@ -123,7 +123,7 @@ prop('C04', COMMON +
       'own result, after completion (ORD-C04-result, UA-wait)', 'no lock-order cycle, no blocking/foreign code under an internal lock (LO, BL)', 'caller-side execution holds the token (TOK-exec)', 'caller-side parking: wake latched while polling, consumed before parking, unpark + re-check loop (PARK-wake, ORD-C06-drain)'],
      ['termination of the operations ahead; OS fairness', '"from inside a job of a different Desync" is derived from BL (no internal lock is held while a job runs)'],
      [(RP.tr_defer, None, ['sync']), (RL.cv, None), (RQ.qd_wake_blocked, None), (RQ.qd_run, None), (RP.tr_roles, None), (RP.tr_dead, None), (RO.free_delegates, None, ['sync|']), (RG.c15_reap, None), (RO.c08, None, ['result-after-scheduler']), (RO.c04_steal, None), (RO.c04_result, None), (RU.ua_wait, None), (RL.lo, None), (RL.bl, None), (RL.lock_classes, None), (RP.tok_exec, None), (RP.tok_resched, None),
-      (RP.park_wake, None, ['WakeThread', 'run_one_job_now']), (RO.c06_drain, None, ['run_one_job_now']), (RE.eo, None, ['Scheduler::sync', 'UnsafeJob', 'SchedulerCore::reschedule_queue', 'JobQueue::run_one_job_now', '|sync|', 'sync|']), (RP.tr_base, None, ['Scheduler::sync', 'SchedulerCore::claim_pending_queue', 'SchedulerCore::reschedule_queue', 'JobQueue::run_one_job_now', 'WakeThread'])])
+      (RP.park_wake, None, ['WakeThread', 'run_one_job_now']), (RO.c06_drain, None, ['run_one_job_now']), (RE.eo, None, ['^Scheduler::sync', '^<Scheduler::sync', '^UnsafeJob', '^<UnsafeJob', '^SchedulerCore::reschedule_queue', '^<SchedulerCore::reschedule_queue', '^JobQueue::run_one_job_now', '^<JobQueue::run_one_job_now', '^sync|']), (RP.tr_base, None, ['^Scheduler::sync', '^<Scheduler::sync', '^SchedulerCore::claim_pending_queue', '^<SchedulerCore::claim_pending_queue', '^SchedulerCore::reschedule_queue', '^<SchedulerCore::reschedule_queue', '^JobQueue::run_one_job_now', '^<JobQueue::run_one_job_now', '^WakeThread', '^<WakeThread'])])
 
 prop('C05', COMMON +
      'Decided: Desync::drop performs a final sync on its own queue on every path and frees the value inside that job (ORD-C05-drop); freed nowhere else, not duplicable (UA-free); every other use of the pointer is a job '
@@ -131,14 +131,14 @@ prop('C05', COMMON +
      ['drop queues a final sync job that frees the value (ORD-C05-drop)', 'freed only there; Desync/DataRef not duplicable (UA-free)', 'pointer used only in jobs of the same queue (UA-confine)',
       'final job ordered after queued work: all of C02\'s rules (ORD-C02-append, QD-queue, TR-immediate, TOK-requeue, PA-excl)', 'the final sync waits for its job (UA-wait)', 'pipes cannot schedule on a dead object (ORD-C05-weak)'],
      ['absence of use-after-free on every interleaving as such', '"blocks until" is derived from the C04 rules'],
-     [(RO.c05_drop, None), (RU.ua_free, None), (RU.ua_confine, None), (RO.c05_weak, None), (RU.ua_wait, None), (RE.eo, None, ['<Desync as core::ops::drop::Drop>', 'Scheduler::sync']), (RP.tr_base, None, ['Scheduler::sync'])] + G_ORDER)
+     [(RO.c05_drop, None), (RU.ua_free, None), (RU.ua_confine, None), (RO.c05_weak, None), (RU.ua_wait, None), (RE.eo, None, ['^Desync as core::ops::drop::Drop>', '^<Desync as core::ops::drop::Drop>', '^Scheduler::sync', '^<Scheduler::sync']), (RP.tr_base, None, ['^Scheduler::sync', '^<Scheduler::sync'])] + G_ORDER)
 
 prop('C06', COMMON +
      'Decided: from every parked configuration reachable in the extracted protocol, wakers and claimers alone lead back to a running queue (PA-wake); each waker calls the resume action that matches the parked state it finds, '
      'and a queue parked for a polling task is offered to and accepted by the pool (PARK-wake); the two queue wakers agree on the states both handle (TR-sibling); a job that returned Pending is back on the queue before the queue is parked (TOK-requeue).',
      ['every parked configuration is resumable by waker/claimer transitions (PA-wake)', 'wakers call the matching resume action; pool takes over WaitingForPoll (PARK-wake)', 'poll-side drain order, DrainWaker latch table, DoubleWaker, park re-check loop (ORD-C06-drain)', 'wakers agree on Running and WaitingForWake (TR-sibling)', 'requeue before parking (TOK-requeue)', 'the polling task stores its waker before it parks the queue (LW-owner)'],
      ['"for every position of the wake-up" as executions', 'futures that break the waker contract'],
-     [(RP.pa_rules, {'PA-wake', 'PA'}), (RP.park_wake, None), (RO.c06_drain, None), (RP.tr_sibling, None, ['WakeQueue/WakeThread']), (RP.tok_requeue, None), (RW.lw_owner, None), (RP.tr_roles, None), (RO.c07_own, None, ['holds-queue-strongly']), (RO.free_delegates, None, ['FutureId']), (RE.eo, None, ['SchedulerFuture', 'WakeQueue', 'WakeThread', 'JobQueue::drain', 'JobQueue::run_one_job_now']), (RP.tr_base, None, ['WakeQueue', 'WakeThread', 'JobQueue::', 'SchedulerFuture', 'SchedulerCore::next_to_run'])])
+     [(RP.pa_rules, {'PA-wake', 'PA'}), (RP.park_wake, None), (RO.c06_drain, None), (RP.tr_sibling, None, ['WakeQueue/WakeThread']), (RP.tok_requeue, None), (RW.lw_owner, None), (RP.tr_roles, None), (RO.c07_own, None, ['holds-queue-strongly']), (RO.free_delegates, None, ['FutureId']), (RE.eo, None, ['^SchedulerFuture', '^<SchedulerFuture', '^WakeQueue', '^<WakeQueue', '^WakeThread', '^<WakeThread', '^JobQueue::drain', '^<JobQueue::drain', '^JobQueue::run_one_job_now', '^<JobQueue::run_one_job_now']), (RP.tr_base, None, ['^WakeQueue', '^<WakeQueue', '^WakeThread', '^<WakeThread', '^JobQueue::', '^<JobQueue::', '^SchedulerFuture', '^<SchedulerFuture', '^SchedulerCore::next_to_run', '^<SchedulerCore::next_to_run'])])
 
 prop('C07', COMMON +
      'Decided: result and waker of a scheduler future live under one mutex with check-and-register / set-and-take atomic (LW1, LW2; the owner\'s unconditional stores are justified by LW-owner); the job signals once, after its operation completed, '
@@ -147,7 +147,7 @@ prop('C07', COMMON +
      ['check-and-register / set-and-take atomic (LW1, LW2, LW-owner)', 'signal once, after completion (ORD-C07-signal)', 'job owned by the queue (ORD-C07-own)', '.sync() waits on the queue (ORD-C07-syncwait)', 'poll never defers on Idle/Pending (TR-defer)',
       'abandoned poll-side drain is taken over; the real waker is installed only after the queue is parked (PARK-wake, ORD-C06-drain)', 'poll-side drain holds and releases the token (TOK-exec, TOK-leak)', 'the awaiting task is woken with no internal lock held (BL)'],
      ['equality of the delivered value with what the user closure computed', 'ordering of sibling polls as executions'],
-     [(RW.lw, None, ['|waker']), (RW.lw_owner, None), (RW.lw_cancel, None), (RW.lw_register, None, ['SchedulerFuture']), (RO.c07_signal, None), (RO.c07_own, None), (RO.c07_syncwait, None), (RP.tr_defer, None, ['SchedulerFuture::poll']), (RP.park_wake, None), (RO.c06_drain, None, ['drain_queue', 'DW-table', 'DoubleWaker']), (RP.tok_exec, None), (RP.tok_leak, None, ['SchedulerFuture']), (RL.bl, None), (RQ.qd_run, None, ['FutureJob', 'UnsafeJob::run']), (RO.free_delegates, None, ['future_desync|', 'FutureId']), (RU.ua_leak, None), (RE.eo, None, ['SchedulerFuture', 'Desync::future_desync', 'future_desync', 'FutureJob::']), (RP.tr_base, None, ['SchedulerFuture', 'SchedulerCore::next_to_run'])] + G_POOL)
+     [(RW.lw, None, ['|waker']), (RW.lw_owner, None), (RW.lw_cancel, None), (RW.lw_register, None, ['SchedulerFuture']), (RO.c07_signal, None), (RO.c07_own, None), (RO.c07_syncwait, None), (RP.tr_defer, None, ['SchedulerFuture::poll']), (RP.park_wake, None), (RO.c06_drain, None, ['drain_queue', 'DW-table', 'DoubleWaker']), (RP.tok_exec, None), (RP.tok_leak, None, ['SchedulerFuture']), (RL.bl, None), (RQ.qd_run, None, ['FutureJob', 'UnsafeJob::run']), (RO.free_delegates, None, ['future_desync|', 'FutureId']), (RU.ua_leak, None), (RE.eo, None, ['^SchedulerFuture', '^<SchedulerFuture', '^Desync::future_desync', '^<Desync::future_desync', '^future_desync', '^<future_desync', '^FutureJob::', '^<FutureJob::']), (RP.tr_base, None, ['^SchedulerFuture', '^<SchedulerFuture', '^SchedulerCore::next_to_run', '^<SchedulerCore::next_to_run'])] + G_POOL)
 
 prop('C08', COMMON +
      'Decided (ORD-C08): the two oneshot channels of future_sync are split so that the slot job holds the queue-ready sender and the task-finished receiver and the SyncFuture the opposite ends; the slot job announces, waits, then signals, also when cancelled; '
@@ -155,21 +155,21 @@ prop('C08', COMMON +
      'SyncFuture drops the user future before the completion sender and has no Drop impl; the slot is reserved at call time (ORD-C02-append).',
      ['channel pairing, slot job order, SyncFuture state order, field drop order (ORD-C08)', 'slot reserved at call time (ORD-C02-append)', 'signal after completion, once (ORD-C07-signal)', 'the cancel wake-up reaches the queue even when it is being drained by a polling task (ORD-C06-drain, PARK-wake)'],
      ['deadlock-freedom of nested awaits as executions', 'that a mid-operation drop happens "before any later operation begins" follows from drop order + slot job order but is a statement about executions'],
-     [(RO.c08, None), (RO.c02_append, None), (RO.c07_signal, None), (RO.c06_drain, None, ['drain_queue', 'DW-table', 'DoubleWaker']), (RP.park_wake, None), (RL.bl, None), (RO.free_delegates, None, ['future_sync|']), (RU.ua_leak, None), (RE.eo, None, ['SyncFuture', 'Scheduler::future_sync', 'Desync::future_sync', 'future_sync'])] + G_EXCL + G_POOL)
+     [(RO.c08, None), (RO.c02_append, None), (RO.c07_signal, None), (RO.c06_drain, None, ['drain_queue', 'DW-table', 'DoubleWaker']), (RP.park_wake, None), (RL.bl, None), (RO.free_delegates, None, ['future_sync|']), (RU.ua_leak, None), (RE.eo, None, ['^SyncFuture', '^<SyncFuture', '^Scheduler::future_sync', '^<Scheduler::future_sync', '^Desync::future_sync', '^<Desync::future_sync', '^future_sync', '^<future_sync'])] + G_EXCL + G_POOL)
 
 prop('C09', COMMON +
      'Decided: a Busy outcome of try_sync has written nothing (every path to Err(Busy) leaves the token untouched: TOK-leak); try_sync never reaches a blocking primitive except the bounded join of finished threads (ORD-C09-noblock); '
      'it runs its closure only from (Idle, queue empty), exactly like sync\'s immediate row (TR-immediate, TR-sibling); after the immediate run the queue goes Idle and is rescheduled (TOK-resched); no running state without a runner is reachable (PA-stuck).',
      ['Busy has written nothing (TOK-leak on try_sync)', 'never blocks (ORD-C09-noblock)', 'immediate only on Idle and empty (TR-immediate, TR-sibling)', 'Idle then reschedule_queue after the run (TOK-resched)', 'no ownerless running state (PA-stuck)', 'a closure that panics in the immediate run leaves the queue Panicked, not Running for ever (TOK-guard); releases go to Idle, never to a parked state or to Panicked (TR-roles, TR-dead)'],
      ['"succeeds once quiescent" as a statement about time'],
-     [(RP.tok_leak, None), (RO.c09_noblock, None), (RP.tr_immediate, None), (RP.tr_sibling, None, ['try_sync']), (RP.tok_resched, None), (RP.pa_rules, {'PA-stuck', 'PA'}), (RP.tok_exec, None), (RP.tr_roles, None), (RP.tr_dead, None), (RG.tok_guard, None), (RO.free_delegates, None, ['try_sync|']), (RE.eo, None, ['Scheduler::try_sync', 'Scheduler::sync_immediate', 'try_sync']), (RP.tr_base, None, ['Scheduler::try_sync', 'Scheduler::sync_immediate'])])
+     [(RP.tok_leak, None), (RO.c09_noblock, None), (RP.tr_immediate, None), (RP.tr_sibling, None, ['try_sync']), (RP.tok_resched, None), (RP.pa_rules, {'PA-stuck', 'PA'}), (RP.tok_exec, None), (RP.tr_roles, None), (RP.tr_dead, None), (RG.tok_guard, None), (RO.free_delegates, None, ['try_sync|']), (RE.eo, None, ['^Scheduler::try_sync', '^<Scheduler::try_sync', '^Scheduler::sync_immediate', '^<Scheduler::sync_immediate', '^try_sync', '^<try_sync']), (RP.tr_base, None, ['^Scheduler::try_sync', '^<Scheduler::try_sync', '^Scheduler::sync_immediate', '^<Scheduler::sync_immediate'])])
 
 prop('C10', COMMON +
      'Decided: no scheduler-wide lock is held at any job-execution or blocking site (BL); the lock-order graph is acyclic (LO); a ready queue goes to a dormant thread or to a newly spawned one below the maximum, then scheduling is retried (ORD-C10-spawn); '
      'pool threads keep pulling until the schedule is empty (ORD-C10-fetch) and the dormant handshake cannot misread a transient lock hold (ORD-C03-dormant, TRY).',
      ['no scheduler-wide lock held while a job runs or a thread blocks (BL)', 'lock order acyclic (LO)', 'dormant else spawn then retry (ORD-C10-spawn)', 'raising the maximum schedules until nothing more can be scheduled (ORD-C10-raise)', 'fetch loop and dormant handshake (ORD-C10-fetch, ORD-C03-dormant, TRY)', 'dead threads are reaped before the table is searched or counted, so `len < max` counts live threads (ORD-C15-reap)'],
      ['actual parallel progress (liveness); the claim is limited to these structural conditions'],
-     [(RL.bl, None), (RL.lo, None), (RO.c10_spawn, None), (RO.c10_fetch, None), (RO.c10_thread, None), (RQ.qd_schedule, None), (RO.c10_raise, None), (RO.c03_dormant, None), (RL.try_rule, None), (RL.lock_classes, None), (RG.c15_reap, None), (RE.eo, None, ['SchedulerCore::schedule_', 'SchedulerCore::remove_finished_threads', 'SchedulerThread::'])])
+     [(RL.bl, None), (RL.lo, None), (RO.c10_spawn, None), (RO.c10_fetch, None), (RO.c10_thread, None), (RQ.qd_schedule, None), (RO.c10_raise, None), (RO.c03_dormant, None), (RL.try_rule, None), (RL.lock_classes, None), (RG.c15_reap, None), (RE.eo, None, ['^SchedulerCore::schedule_', '^<SchedulerCore::schedule_', '^SchedulerCore::remove_finished_threads', '^<SchedulerCore::remove_finished_threads', '^SchedulerThread::', '^<SchedulerThread::'])])
 
 prop('C11', COMMON +
      'Decided (ORD-C11): the pipe\'s poll function only runs inside a future_desync job of the target; in pipe_in each Ready(Some(item)) is handed to the processing function and awaited to completion before the next poll, Pending keeps the pipe with the pipe\'s own waker, '
@@ -183,14 +183,14 @@ prop('C12', COMMON +
      'exactly one push per processed item after its future completed, closed only at end of input, end reported only when empty and closed (ORD-C12); wakers are woken outside the lock, no guard lives across an await (BL, AW).',
      ['consumer and back-pressure handshakes (LW1, LW2)', 'buffer discipline (QD-pending)', 'one output per input, in order, then end (ORD-C12)', 'wakes outside the lock, no guard across await (BL, AW)'],
      ['"for every buffer depth and interleaving" as executions', "depth 0 is outside the property's range"],
-     [(RW.lw, None, ['|notify#', '|notify<-', 'backpressure_release_notify', 'floor:notify:', 'floor:backpressure']), (RW.lw_register, None, ['PipeStream']), (RQ.qd_pending, None), (RO.c12, None), (RO.c11_sleep, None, ['pipe|']), (RO.c11, None, ['PipeWaker']), (RO.rs_strength, None, ['PipeWaker']), (RL.bl, None), (RL.aw, None), (RE.eo, None, ['PipeStream', 'PipeContext'])])
+     [(RW.lw, None, ['|notify#', '|notify<-', 'backpressure_release_notify', 'floor:notify:', 'floor:backpressure']), (RW.lw_register, None, ['PipeStream']), (RQ.qd_pending, None), (RO.c12, None), (RO.c11_sleep, None, ['pipe|']), (RO.c11, None, ['PipeWaker']), (RO.rs_strength, None, ['PipeWaker']), (RL.bl, None), (RL.aw, None), (RE.eo, None, ['^PipeStream', '^<PipeStream', '^PipeContext', '^<PipeContext'])])
 
 prop('C13', COMMON +
      'Decided (ORD-C13): the resumer\'s sender and the future the suspending job waits on are the two ends of one channel, the resumer is handed out inside the job before waiting, the suspension is an ordinary future_desync job (so every token and ordering rule applies to it), '
      'QueueResumer has no Drop impl and resume consumes it. "Later work waits, then continues in order" is derived from the C01/C02/C06 rules for a job that stays Pending (TOK-requeue, QD-queue, PARK-wake).',
      ['suspend job shape (ORD-C13)', 'a Pending job keeps the queue and is resumed by its waker (TOK-requeue, QD-queue, PARK-wake)', 'sync callers that pile up behind a suspension each stay registered for the wake-up (QD-waiters)'],
      ['all dynamic content: this is the thinnest claim; order of held operations after resumption is derived, not separately decided'],
-     [(RO.c13, None), (RP.park_wake, None), (RQ.qd_wake_blocked, None), (RU.ua_leak, None), (RE.eo, None, ['Scheduler::suspend', 'Scheduler::sync_background', 'SchedulerCore::reschedule_queue']), (RP.tr_base, None, ['JobQueue::drain', 'WakeQueue', 'SchedulerCore::reschedule_queue', 'Scheduler::sync'])] + G_ORDER + G_POOL)
+     [(RO.c13, None), (RP.park_wake, None), (RQ.qd_wake_blocked, None), (RU.ua_leak, None), (RE.eo, None, ['^Scheduler::suspend', '^<Scheduler::suspend', '^Scheduler::sync_background', '^<Scheduler::sync_background', '^SchedulerCore::reschedule_queue', '^<SchedulerCore::reschedule_queue']), (RP.tr_base, None, ['^JobQueue::drain', '^<JobQueue::drain', '^WakeQueue', '^<WakeQueue', '^SchedulerCore::reschedule_queue', '^<SchedulerCore::reschedule_queue', '^Scheduler::sync', '^<Scheduler::sync'])] + G_ORDER + G_POOL)
 
 prop('C14', COMMON +
      'Decided: the four lifetime-erasure obligations — a sync caller does not return before its lifetime-erased job has been run and dropped (UA-wait), the payload pointer is dereferenced only inside jobs of the object\'s own queue (UA-confine), '
@@ -206,7 +206,7 @@ prop('C15', COMMON +
      'nothing on the pool-thread path catches the unwind (ORD-C15-unwind); no user code runs under a scheduler mutex, so a panic cannot poison one (BL).',
      ['guard covers every execution site (TOK-guard, AQ-drop)', 'nothing leaves Panicked (TR-dead)', 'entry points refuse a panicked queue (ORD-C15-refuse)', 'dead threads reaped and replaced (ORD-C15-reap, ORD-C15-unwind)', 'no user code under scheduler locks (BL)', 'the guard takes the queue lock unconditionally (TRY: no try_lock on internal locks)'],
      ['"other objects remain fully usable" as executions'],
-     [(RG.tok_guard, None), (RG.aq_drop, None), (RP.tr_dead, None), (RG.c15_refuse, None), (RG.c15_reap, None), (RO.c15_unwind, None), (RL.bl, None), (RL.try_rule, None), (RP.tr_base, None, ['ActiveQueue', 'Scheduler::sync_no_panic'])])
+     [(RG.tok_guard, None), (RG.aq_drop, None), (RP.tr_dead, None), (RG.c15_refuse, None), (RG.c15_reap, None), (RO.c15_unwind, None), (RL.bl, None), (RL.try_rule, None), (RP.tr_base, None, ['^ActiveQueue', '^<ActiveQueue', '^Scheduler::sync_no_panic', '^<Scheduler::sync_no_panic'])])
 
 prop('C16', COMMON +
      'Decided: the producer registers notify_stream_closed only after re-reading `closed` in the same critical section, and PipeStream::drop sets `closed` and takes+wakes the slot in one critical section (LW1, LW2); '
@@ -214,11 +214,11 @@ prop('C16', COMMON +
      'a finished pipe releases its poll function (ORD-C11).',
      ['closed re-read before registering; drop sets closed and wakes in one section (LW1, LW2)', 'provenance of the waker woken under the lock (LW-prov, LO)', 'producer stops, references released (ORD-C16, ORD-C11)'],
      ['drop positions as executions'],
-     [(RW.lw, None, ['notify_stream_closed']), (RW.lw_prov, None), (RL.lo, None), (RO.c16, None), (RO.c11, None), (RE.eo, None, ['PipeStream', 'PipeContext'])])
+     [(RW.lw, None, ['notify_stream_closed']), (RW.lw_prov, None), (RL.lo, None), (RO.c16, None), (RO.c11, None), (RE.eo, None, ['^PipeStream', '^<PipeStream', '^PipeContext', '^<PipeContext'])])
 
 prop('C17', COMMON +
      'Decided (ORD-C17): every in-crate path that adds a pool thread tests `threads.len() < max` and pushes inside one critical section of the threads lock; the unconditional Scheduler::spawn_thread has no in-crate caller; '
      'OS threads are created in one place, called only from those functions; despawn pops while len > max under the lock and joins outside it (BL).',
      ['spawn only under `len < max` in one critical section (ORD-C17)', 'single creation site; despawn shape (ORD-C17)', 'join outside the lock (BL)'],
      ["maximum changes racing with spawns (excluded by the property's own quantifier)"],
-     [(RO.c17, None), (RL.bl, None), (RO.c10_spawn, None), (RE.eo, None, ['Scheduler::despawn_threads_if_overloaded', 'SchedulerCore::remove_finished_threads'])])
+     [(RO.c17, None), (RL.bl, None), (RO.c10_spawn, None), (RE.eo, None, ['^Scheduler::despawn_threads_if_overloaded', '^<Scheduler::despawn_threads_if_overloaded', '^SchedulerCore::remove_finished_threads', '^<SchedulerCore::remove_finished_threads'])])
